@@ -16,6 +16,10 @@ limitations under the License.
 
 package fmessages
 
+import (
+	pgserrors "github.com/codenotary/immudb/pkg/pgsql/errors"
+)
+
 type DescribeMsg struct {
 	// 'S' to describe a prepared statement; or 'P' to describe a portal.
 	DescType string
@@ -24,6 +28,11 @@ type DescribeMsg struct {
 }
 
 func ParseDescribeMsg(msg []byte) (DescribeMsg, error) {
+	// type byte and the terminator of the (possibly empty) name
+	if len(msg) < 2 {
+		return DescribeMsg{}, pgserrors.ErrMalformedMessage
+	}
+
 	descType := msg[0]
 	return DescribeMsg{
 		DescType: string(descType),
